@@ -12,6 +12,7 @@
   of the file is used by the correspondence driver only.
 -/
 import Csvq.Model.Float
+import Csvq.Model.Unicode
 namespace Csvq.Rel
 open Csvq
 
@@ -366,8 +367,12 @@ structure HField where
   identifier : String := ""     -- formatted text of the expression a computed column stands for
   deriving Repr, DecidableEq, Inhabited
 
-/-- `strings.EqualFold` on the ASCII identifiers the generators use -/
-def eqFold (a b : String) : Bool := a.toLower == b.toLower
+/-- the UTF-8 bytes of a text -/
+def utf8 (s : String) : Bytes := s.toUTF8.toList.map UInt8.toNat
+
+/-- `strings.EqualFold` (Model/Unicode.lean: rune by rune — equal, an ASCII case pair, or reached by walking the
+    SimpleFold orbit of the toolchain's Unicode tables) -/
+def eqFold (a b : String) : Bool := Uni.equalFold (utf8 a) (utf8 b)
 
 /-- `strings.TrimSpace` (ASCII white space; the column texts of header and reference are trimmed before they are compared) -/
 def trimSpace (s : String) : String :=
